@@ -345,12 +345,23 @@ fn spec_rec(rng: &mut Rng, cfg: &TreeCfg, depth: usize, anc: &mut Vec<Aff>) -> S
         let a = rng.pick(anc).clone();
         let mut row = a.mat[0].clone();
         let mut b = a.bias[0];
-        match rng.below(3) {
-            0 => b += rng.int(-2, 2) as f64,
-            1 => {
+        match rng.below(13) {
+            0..=3 => b += rng.int(-2, 2) as f64,
+            4..=7 => {
                 for v in row.iter_mut() {
                     *v = -*v;
                 }
+                b = -b + rng.int(-2, 2) as f64;
+            }
+            12 if cfg.in_dim >= 2 => {
+                // nearly (not exactly) opposite normal: the two hyperplanes cross ~1e5 away from the origin
+                // and the wedge behind the crossing is a genuine full-dimensional region far out
+                for v in row.iter_mut() {
+                    *v = -*v;
+                }
+                let j = rng.below(cfg.in_dim);
+                let k = rng.pick(&[15i32, 17, 19]);
+                row[j] += if rng.chance(0.5) { 1.0 } else { -1.0 } * 2f64.powi(-*k);
                 b = -b + rng.int(-2, 2) as f64;
             }
             _ => {
